@@ -175,8 +175,10 @@ func (r *RCase[T]) setReal(v any, ok bool) {
 	r.OK = ok
 }
 
-func (w *SCase[T]) core() selCaseCore { return selCaseCore{send: true, ch: w.c.corePtr(), val: box[T]{w.v}} }
-func (w *SCase[T]) done(g *G)         {}
+func (w *SCase[T]) core() selCaseCore {
+	return selCaseCore{send: true, ch: w.c.corePtr(), val: box[T]{w.v}}
+}
+func (w *SCase[T]) done(g *G) {}
 func (w *SCase[T]) realCase() (bool, any, any) {
 	if w.c == nil {
 		return true, (chan T)(nil), w.v
